@@ -18,6 +18,10 @@ typedef struct {
 	int fault;            /* DGF_* to inject into one block (the first eligible), 0 for a valid stream */
 	int want_deep;        /* force code depth >= 13 in dynamic blocks */
 	int want_far;         /* prefer long distances */
+	/* optional "foreign header" block family: a dynamic block whose header bits (from bit 1, i.e. after BFINAL) are copied verbatim from
+	 * pre_hdr, and whose tokens use the codes that header defines (pre_l = the nlen + ndist code lengths an independent parser read from
+	 * it).  Only placed where the block starts on a byte boundary (first block, or right after a stored block). */
+	const uint8_t *pre_hdr; size_t pre_hdr_bits; const uint8_t *pre_l; int pre_nlen, pre_ndist; int npre;
 	/* results */
 	uint8_t *buf; size_t cap, bits;     /* stream */
 	uint8_t *exp; size_t explen;        /* expected output */
@@ -229,7 +233,8 @@ static void dg_dynamic(defgen_t *g, vrng *r, int last, int fault)
 static size_t defgen(defgen_t *g, vrng *r, uint8_t *buf, size_t cap, uint8_t *exp, size_t max_out)
 {
 	int fault = g->fault, want_deep = g->want_deep, want_far = g->want_far, mb = g->max_blocks ? g->max_blocks : 5;
-	memset(g, 0, sizeof *g); g->fault = fault; g->want_deep = want_deep; g->want_far = want_far; g->buf = buf; g->cap = cap; g->exp = exp; g->max_out = max_out; memset(buf, 0, cap);
+	const uint8_t *pre_hdr = g->pre_hdr, *pre_l = g->pre_l; size_t pre_hdr_bits = g->pre_hdr_bits; int pre_nlen = g->pre_nlen, pre_ndist = g->pre_ndist, prev_stored = 1;
+	memset(g, 0, sizeof *g); g->pre_hdr = pre_hdr; g->pre_l = pre_l; g->pre_hdr_bits = pre_hdr_bits; g->pre_nlen = pre_nlen; g->pre_ndist = pre_ndist; g->fault = fault; g->want_deep = want_deep; g->want_far = want_far; g->buf = buf; g->cap = cap; g->exp = exp; g->max_out = max_out; memset(buf, 0, cap);
 	int nblk = 1 + (int) vrn(r, mb), fault_blk = fault ? (int) vrn(r, nblk) : -1;
 	if (fault == DGF_NODIST_MATCH) { if (nblk < 2) nblk = 2; fault_blk = 1 + (int) vrn(r, nblk - 1); }   /* after at least one ordinary block */
 	for (int b = 0; b < nblk; b++) {
@@ -242,6 +247,14 @@ static size_t defgen(defgen_t *g, vrng *r, uint8_t *buf, size_t cap, uint8_t *ex
 		if (f >= DGF_HLIT && f <= DGF_NO_EOB) type = 2;
 		if (f == DGF_UNASSIGNED || f == DGF_FARDIST || f == DGF_NODIST_MATCH) type = 2;
 		g->nblocks++;
+		if (pre_hdr && !fault && prev_stored && (g->bits & 7) == 0 && vrn(r, 3) == 0) {   /* foreign-header block */
+			uint8_t ll[288] = { 0 }, dl[32] = { 0 }; uint16_t lc[288] = { 0 }, dc[32] = { 0 };
+			memcpy(ll, pre_l, (size_t) pre_nlen); memcpy(dl, pre_l + pre_nlen, (size_t) pre_ndist); dg_canon(ll, 288, lc); dg_canon(dl, 32, dc);
+			dg_pb(g, last, 1); for (size_t i = 1; i < pre_hdr_bits; i++) dg_pb(g, (pre_hdr[i >> 3] >> (i & 7)) & 1u, 1);
+			dg_tokens(g, r, ll, lc, dl, dc, vrn(r, 4) == 0 ? (int) vrn(r, 20) : (int) vrn(r, 3000)); dg_pcode(g, lc[256], ll[256]);
+			g->ndyn++; g->npre++; prev_stored = 0; continue;
+		}
+		prev_stored = type == 0;
 		if (type == 0) {
 			g->nstored++;
 			dg_pb(g, last, 1); dg_pb(g, 0, 2); g->bits = (g->bits + 7) & ~(size_t) 7;
